@@ -24,18 +24,18 @@ var _ io.Writer = &GatedWriter{}
 // buffering.
 func (w *GatedWriter) Flush() {
 	w.lock.Lock()
+	defer w.lock.Unlock()
 	w.flush = true
-	w.lock.Unlock()
 
 	for _, p := range w.buf {
-		w.Write(p)
+		w.Writer.Write(p)
 	}
 	w.buf = nil
 }
 
 func (w *GatedWriter) Write(p []byte) (n int, err error) {
-	w.lock.RLock()
-	defer w.lock.RUnlock()
+	w.lock.Lock()
+	defer w.lock.Unlock()
 
 	if w.flush {
 		return w.Writer.Write(p)
